@@ -64,13 +64,15 @@ SIG_F8_WMSC = 'wmsc:advertised-tile-refused-or-shifted(ul-unaligned-or-extent-di
 MERC = 20037508.342789244
 MPD = 111319.4907932736
 SRS_KIND = {3857: 'SrsMerc', 900913: 'SrsMerc', 4326: 'SrsGeod', 25832: 'SrsOther', 31467: 'SrsOther', 3035: 'SrsOther',
+            4267: 'SrsOther', 4230: 'SrsOther', 4277: 'SrsOther',
             2180: 'SrsOther', 3006: 'SrsOther', 4258: 'SrsOther', 4269: 'SrsOther', 2154: 'SrsOther', 32633: 'SrsOther'}
 # axis order of the CRS definitions (EPSG registry), written down independently of mapproxy: some are in mapproxy's configured
 # axis_order_ne / axis_order_en lists (4326, 4258, 31467 / 25832, 900913), the others are decided by PROJ (3035, 2180, 3006, 4269
 # north/east; 3857, 2154, 32633 east/north)
 SRS_NE = {3857: False, 900913: False, 4326: True, 25832: False, 31467: True, 3035: True,
-          2180: True, 3006: True, 4258: True, 4269: True, 2154: False, 32633: False}
-LATLONG = (4326, 4258, 4269)
+          2180: True, 3006: True, 4258: True, 4269: True, 2154: False, 32633: False, 4267: True, 4230: True, 4277: True}
+# geographic CRS: a WMTS client uses 111319.4907932736 m per degree for all of them, whatever the ellipsoid
+LATLONG = (4326, 4258, 4269, 4267, 4230, 4277)
 PROJECTED_OFFSET = {31467: (3400000, 5500000), 25832: (400000, 5500000), 3035: (4200000, 3100000), 2180: (500000, 400000),
                     3006: (500000, 6500000), 2154: (600000, 6500000), 32633: (400000, 5500000)}
 PROFILE = {'global-mercator': 'GlobalMercator', 'global-geodetic': 'GlobalGeodetic', 'local': 'LocalProfile'}
@@ -79,10 +81,12 @@ PROFILE = {'global-mercator': 'GlobalMercator', 'global-geodetic': 'GlobalGeodet
 # ----------------------------------------------------------------------------- configurations
 
 class LayerSpec(object):
-    """one layer = one cache on one grid (+ optional cache coverage that restricts the layer extent)"""
+    """one tile layer = (layer, grid).  Normally one layer = one cache on one grid (+ optional cache coverage that restricts the
+    layer extent); specs that share `layer` form ONE layer whose single cache has several grids (one tile layer per grid)."""
 
-    def __init__(self, name, epsg, grid_conf, kind, coverage=None, sqrt2=False):
-        self.name = name
+    def __init__(self, name, epsg, grid_conf, kind, coverage=None, sqrt2=False, layer=None):
+        self.name = name              # unique: names the grid g_<name>
+        self.layer = layer or name    # public layer name
         self.epsg = epsg
         self.grid_conf = grid_conf
         self.kind = kind              # 'exact' / 'real'
@@ -90,7 +94,10 @@ class LayerSpec(object):
         self.sqrt2 = sqrt2
 
     def describe(self):
-        return {'epsg': self.epsg, 'grid': self.grid_conf, 'coverage': self.coverage, 'sqrt2': self.sqrt2, 'kind': self.kind}
+        d = {'epsg': self.epsg, 'grid': self.grid_conf, 'coverage': self.coverage, 'sqrt2': self.sqrt2, 'kind': self.kind}
+        if self.layer != self.name:
+            d['layer_with_several_grids'] = self.layer
+        return d
 
 
 def gen_global_geodetic_layer(rng, i):
@@ -116,7 +123,7 @@ def gen_global_geodetic_layer(rng, i):
 def gen_exact_layer(rng, i):
     if rng.random() < 0.2:
         return gen_global_geodetic_layer(rng, i)
-    epsg = rng.choice([3857, 3857, 25832, 31467, 4326, 4326, 3035, 2180, 3006, 4269, 4258, 2154, 32633, 3035])
+    epsg = rng.choice([3857, 3857, 25832, 31467, 4326, 4326, 3035, 2180, 3006, 4269, 4258, 2154, 32633, 3035, 4267, 4230, 4277])
     ul = rng.choice(['ll', 'ul', 'sw', 'nw', 'ul'])
     if epsg in LATLONG:
         tw, th = rng.choice([(4, 4), (8, 8), (8, 4), (16, 16), (5, 10)])
@@ -182,9 +189,9 @@ def real_layers():
     out = []
     k = [0]
 
-    def add(epsg, conf, sqrt2=False, kind='real'):
+    def add(epsg, conf, sqrt2=False, kind='real', layer=None):
         k[0] += 1
-        out.append(LayerSpec('r%d' % k[0], epsg, conf, kind, None, sqrt2))
+        out.append(LayerSpec('r%d' % k[0], epsg, conf, kind, None, sqrt2, layer=layer))
     add(900913, {'base': 'GLOBAL_MERCATOR', 'num_levels': 7})
     add(900913, {'base': 'GLOBAL_MERCATOR', 'num_levels': 6, 'origin': 'nw'})
     add(3857, {'base': 'GLOBAL_WEBMERCATOR', 'num_levels': 6})
@@ -223,6 +230,16 @@ def real_layers():
     add(900913, {'base': 'GLOBAL_MERCATOR', 'res_factor': 'sqrt2', 'min_res': 78271.51696402048, 'num_levels': 6, 'origin': 'nw'},
         sqrt2=True)                                                                                                  # 2x2
     add(900913, {'base': 'GLOBAL_MERCATOR', 'res_factor': 'sqrt2', 'num_levels': 4}, sqrt2=True)   # internal_level(0) = 4 does not exist
+    # geographic SRS on other ellipsoids (Clarke 1866, International 1924, Airy): the WMTS scale denominator uses the constant
+    # 111319.4907932736 m per degree for every geographic CRS (OGC 07-057r7 6.1, Table 2 note)
+    add(4267, {'srs': 'EPSG:4267', 'bbox': [-125, 24, -66, 50], 'res': [0.25, 0.125, 0.0625, 0.0078125], 'tile_size': [64, 64], 'origin': 'ul'}, kind='exact')
+    add(4230, {'srs': 'EPSG:4230', 'bbox': [-10, 35, 30, 70], 'res': [0.5, 0.125], 'tile_size': [32, 32]}, kind='exact')
+    # one layer, one cache, several grids: a tile layer per grid, each with the extent of its own grid
+    add(3857, {'srs': 'EPSG:3857', 'bbox': [0, 0, 1000, 700], 'res': [4, 2, 1], 'tile_size': [100, 100], 'origin': 'ul'}, kind='exact', layer='mg1')
+    add(25832, {'srs': 'EPSG:25832', 'bbox': [400000, 5500000, 401024, 5500512], 'res': [4, 2], 'tile_size': [64, 64]}, kind='exact', layer='mg1')
+    add(4326, {'base': 'GLOBAL_GEODETIC', 'num_levels': 4}, kind='exact', layer='mg2')
+    add(900913, {'base': 'GLOBAL_MERCATOR', 'num_levels': 4}, layer='mg2')
+    add(3035, {'srs': 'EPSG:3035', 'bbox': [4000000, 2700000, 4256000, 2956000], 'res': [1000, 500], 'tile_size': [64, 64], 'origin': 'nw'}, kind='exact', layer='mg2')
     return out
 
 
@@ -238,12 +255,16 @@ def build_conf(layers, tms_origin):
     for l in layers:
         g = dict(l.grid_conf)
         conf['grids']['g_' + l.name] = g
+        if 'c_' + l.layer in conf['caches']:
+            # a further grid of the cache of this layer
+            conf['caches']['c_' + l.layer]['grids'].append('g_' + l.name)
+            continue
         c = {'grids': ['g_' + l.name], 'sources': ['src'], 'disable_storage': True}
         if l.coverage:
             c['cache'] = {'type': 'file', 'directory': '/nonexistent-c02', 'coverage': {'bbox': l.coverage, 'srs': 'EPSG:%d' % l.epsg}}
             del c['disable_storage']
-        conf['caches']['c_' + l.name] = c
-        conf['layers'].append({'name': l.name, 'title': 'T ' + l.name, 'sources': ['c_' + l.name]})
+        conf['caches']['c_' + l.layer] = c
+        conf['layers'].append({'name': l.layer, 'title': 'T ' + l.layer, 'sources': ['c_' + l.layer]})
     return conf
 
 
@@ -363,7 +384,7 @@ def parse_wmsc(body):
     out = {}
     for ts in root.iter('TileSet'):
         bb = ts.find('BoundingBox')
-        out[ts.findtext('Layers')] = {
+        out[(ts.findtext('Layers'), ts.findtext('SRS'))] = {
             'srs': ts.findtext('SRS'), 'bbox': [F(bb.get(k)) for k in ('minx', 'miny', 'maxx', 'maxy')],
             'res': [F(x) for x in ts.findtext('Resolutions').split()], 'tw': int(ts.findtext('Width')), 'th': int(ts.findtext('Height')),
             'format': ts.findtext('Format')}
@@ -420,9 +441,13 @@ def setup_layer(spec, tile_layer, idx):
 
 def layer_gallina(st):
     gc = st.gc
-    return 'Definition %s : tlayer := mkLayer %s %s %s %s %s %d %d %s %s.' % (
+    # extent: the rule of config/loader.py caches() (coverage of the cache, else the bbox of this grid); metres per unit: the rule of
+    # service/wmts.py; the harness gives the configuration (coverage, geographic or not), the model computes the values
+    cov = 'None' if not st.spec.coverage else '(Some (%s, %s, %s, %s))' % tuple(zlit(gc.z(frac(v))) for v in st.spec.coverage)
+    mpu = '(meter_per_unit %s)' % blit(st.spec.epsg in LATLONG)
+    return 'Definition %s : tlayer := mkLayer %s %s %s %s %s (fst %s) (snd %s) (cache_extent %s None %s) %s.' % (
         st.lname, gc.name, SRS_KIND[st.spec.epsg], blit(st.default_bbox), blit(st.sqrt2), blit(st.ne),
-        st.mpu.numerator, st.mpu.denominator, '(%s, %s, %s, %s)' % tuple(zlit(gc.z(v)) for v in st.extent), zlit(gc.S))
+        mpu, mpu, cov, gc.name, zlit(gc.S))
 
 
 def misalign(st, l):
@@ -730,10 +755,10 @@ def do_kml_docs(R, st, srv, rel):
 
 def do_wmts(R, st, srv, sets, layers, flavour):
     ctx, gc, rng = R.ctx, st.gc, R.ctx.rng
-    name = st.spec.name
+    name = st.spec.layer
     d0 = rep(st, 'wmts', 'Capabilities')
     gname = st.grid.name
-    offered = name in layers
+    offered = name in layers and gname in layers[name]['sets']
     aligned = gc.ul or all(misalign(st, l) == 0 for l in range(len(gc.res)))
     if not offered:
         if flavour == 'rest':
@@ -748,7 +773,7 @@ def do_wmts(R, st, srv, sets, layers, flavour):
     if not aligned:
         ctx.fail('wmts:unaligned-grid-offered', 'layer %s is offered by WMTS although its grid cannot be addressed from the north-west' % name, d0)
     lay = layers[name]
-    if lay['sets'] != [gname] or gname not in sets:
+    if gname not in lay['sets'] or gname not in sets or len(lay['sets']) > st.n_grids:
         ctx.fail('wmts:matrix-set-link', 'layer %s links %r' % (name, lay['sets']), d0)
         return
     mats = sets[gname]['matrices']
@@ -794,7 +819,7 @@ def do_wmts(R, st, srv, sets, layers, flavour):
 def do_wmsc(R, st, tileset):
     """WMS-C: TileSet of the WMS 1.1.1 capabilities and GetMap tiled=true for the rectangles a client derives from it"""
     ctx, gc, rng = R.ctx, st.gc, R.ctx.rng
-    name = st.spec.name
+    name = st.spec.layer
     d0 = rep(st, 'wmsc', 'TileSet', tileset=repr(tileset))
     if tileset is None:
         ctx.fail('wmsc:tileset-missing', 'no TileSet for layer %s' % name, d0)
@@ -906,11 +931,15 @@ def run_app(R, layers, tms_origin, idx0):
     tms_layers = handlers['tms'].layers
     states = []
     for i, spec in enumerate(layers):
-        tl = [v for v in tms_layers.values() if v.name == spec.name]
+        tl = [v for v in tms_layers.values() if v.name == spec.layer and v.tile_manager.grid.name == 'g_' + spec.name]
         if len(tl) != 1:
-            ctx.fail('config:layer-missing', 'layer %s has %d tile layers' % (spec.name, len(tl)), {'conf': conf})
+            ctx.fail('config:layer-missing', 'layer %s has %d tile layers on grid g_%s' % (spec.layer, len(tl), spec.name), {'conf': conf})
             continue
         st = setup_layer(spec, tl[0], idx0 + i)
+        st.path_element = tl[0].md['name_path'][1]
+        first = [s0 for s0 in states if s0.spec.layer == spec.layer]
+        st.layer_id = first[0].layer_id if first else idx0 + i
+        st.n_grids = len([l for l in layers if l.layer == spec.layer])
         states.append(st)
         R.defs.append(st.gc.definition())
         R.defs.append(layer_gallina(st))
@@ -948,9 +977,10 @@ def run_app(R, layers, tms_origin, idx0):
     if json.dumps(rest_sets, sort_keys=True, default=str) != json.dumps(kvp_sets, sort_keys=True, default=str):
         ctx.fail('wmts:kvp-and-restful-capabilities-differ', 'TileMatrixSets of the KVP and RESTful capabilities differ', {'conf': conf})
     for st in states:
-        hrefs = [h for h, prof, srs in root if re.search(r'/%s/[^/]+$' % re.escape(st.spec.name), h)]
+        hrefs = [h for h, prof, srs in root if h.endswith('/%s/%s' % (st.spec.layer, st.path_element))]
         if len(hrefs) != 1:
-            ctx.fail('tms:root-resource', 'layer %s has %d TileMaps in the root resource' % (st.spec.name, len(hrefs)), rep(st, 'tms', None))
+            ctx.fail('tms:root-resource', 'layer %s has %d TileMaps for %s in the root resource' % (st.spec.layer, len(hrefs), st.path_element),
+                     rep(st, 'tms', None))
             continue
         prof = [p for h, p, s in root if h == hrefs[0]][0]
         if PROFILE.get(prof) != st.profile:
@@ -961,11 +991,12 @@ def run_app(R, layers, tms_origin, idx0):
         do_kml_docs(R, st, tms_origin, rel)
         do_wmts(R, st, tms_origin, rest_sets, rest_layers, 'rest')
         do_wmts(R, st, tms_origin, kvp_sets, kvp_layers, 'kvp')
-        do_wmsc(R, st, wmsc.get(st.spec.name))
+        do_wmsc(R, st, wmsc.get((st.spec.layer, 'EPSG:%d' % st.spec.epsg)))
     R.app_seq += 1
+    R.states = states
     R.app_table = 'app%d' % R.app_seq
     R.defs.append('Definition %s : layer_table := %s.' % (
-        R.app_table, llit(states, lambda st: '(%s, %d, %s)' % (st.lname[1:], st.spec.epsg, st.lname))))
+        R.app_table, llit(states, lambda st: '(%d, %d, %s)' % (st.layer_id, st.spec.epsg, st.lname))))
     do_pairs(R, tms_origin)
 
 
@@ -1047,7 +1078,10 @@ def do_pairs(R, srv):
             # B without grid path element: TileServer / KMLServer try <layer>_EPSG900913 and <layer>_EPSG4326
             b = list(b)
             b[4] = re.sub(r'^(/tms/1\.0\.0/[^/]+|/tiles/[^/]+|/kml/[^/]+)/[^/]+/', r'\1/', b[4], count=1)
-            b[7] = b[0].spec.epsg in (900913, 4326)
+            # which grid of the layer answers: TileServer tries <layer>_EPSG900913 first, KMLServer <layer>_EPSG4326
+            have = {s0.spec.epsg for s0 in R.states if s0.spec.layer == b[0].spec.layer}
+            order = [e for e in ((4326, 900913) if b[2] == 'kml' else (900913, 4326)) if e in have]
+            b[7] = bool(order) and order[0] == b[0].spec.epsg
             b = tuple(b)
         ra, rb = run_pair(R, a[4], b[4])
         sched = 'A parsed, B parsed, A handled, B handled; A=%s B=%s' % (a[4], b[4])
@@ -1061,7 +1095,7 @@ def do_pairs(R, srv):
         # the schedule itself goes to the request / schedule model (run_schedule): both answers must be the model's
         def req_term(x):
             ge = re.match(r'^[A-Za-z]+(\d+)$', grid_element(x[4]))
-            return '(mkReq %s %s %s %s)' % (blit(x[2] == 'kml'), x[0].lname[1:], olit(int(ge.group(1)) if ge else None), x[3])
+            return '(mkReq %s %d %s %s)' % (blit(x[2] == 'kml'), x[0].layer_id, olit(int(ge.group(1)) if ge else None), x[3])
 
         def obs_term(r):
             kind, c = observed_coord(r[0], r[3])
@@ -1348,7 +1382,7 @@ def run(ctx):
             by_origin.setdefault(o, []).append(spec)
         for o, specs in sorted(by_origin.items(), key=lambda kv: str(kv[0])):
             batches.append((specs, o))
-        n_exact = ctx.n(10, 100)
+        n_exact = ctx.n(8, 100)
         exact = [gen_exact_layer(rng, i) for i in range(n_exact)]
         per = 6
         for k in range(0, len(exact), per):
